@@ -549,7 +549,7 @@ func TestC17Single(t *testing.T) {
 			b--
 		}
 		x := &sched.Explorer{Bound: b, Report: rep, Deadline: deadline, Scenario: sc.fullName(), Run: func(c *sched.Chooser) sched.Result { return runSingle(t, sc, c) }}
-		if !x.Explore() {
+		if !x.ExploreOrReplay() {
 			rep.NotExhaustive("deadline or violation cap in " + sc.fullName())
 			break
 		}
@@ -791,7 +791,7 @@ func TestC17Manager(t *testing.T) {
 	deadline := ev.Deadline(8 * time.Minute)
 	for _, sc := range scs {
 		x := &sched.Explorer{Bound: bound, Report: rep, Deadline: deadline, Scenario: sc.fullName(), Run: func(c *sched.Chooser) sched.Result { return runManager(t, sc, c) }}
-		if !x.Explore() {
+		if !x.ExploreOrReplay() {
 			rep.NotExhaustive("deadline or violation cap in " + sc.fullName())
 			break
 		}
